@@ -332,14 +332,24 @@ func runReplay(c *Ctx, path string) int {
 	defer d.Close()
 	bad := 0
 	for _, op := range ops {
-		io := suite.Canon(ex.Exec(op.Line))
-		mo := suite.Canon(d.Ask(op.Line))
+		raw := ex.Exec(op.Line)
+		mline := op.Line
+		if j := strings.LastIndex(raw, " @now="); j >= 0 {
+			mline += " now=" + raw[j+6:]
+			raw = raw[:j]
+		}
+		if j := strings.LastIndex(raw, " @append="); j >= 0 {
+			mline += " " + raw[j+9:]
+			raw = raw[:j]
+		}
+		io := suite.Canon(raw)
+		mo := suite.Canon(d.Ask(mline))
 		mark := "  "
 		if io != mo {
 			mark = "!!"
 			bad++
 		}
-		fmt.Printf("%s %s\n     impl : %s\n     model: %s\n", mark, op.Line, clip(io), clip(mo))
+		fmt.Printf("%s %s\n     impl : %s\n     model: %s\n", mark, clip(mline), clip(io), clip(mo))
 	}
 	if bad > 0 {
 		return 1
